@@ -50,10 +50,19 @@ def _cases(prop, seed, n):
             first = st.run_case(run)         # the probes now hold the observer outcomes the request needs
             req = request()
             info = dict(info, seed=seed, k=k, n=n)
-            c = common.Case(SUITE, req, (lambda run=run: st.run_case(run)), None, cls=fn["lean"],
+            c = common.Case(SUITE, req, (lambda run=run: st.run_case(run)), getattr(run, "oracle", None), cls=fn["lean"],
                             nontrivial=first.startswith("OK"), info=info)
             out.append(c)
     return out
+
+
+def search_global(prop, ctx):
+    """a proof obligation no longer checks: the property oracles of the quick cases on the real code"""
+    for c in _cases(prop, ctx["seed"], 40):
+        r = common.run_oracle(c)
+        if r is not None:
+            return {"suite": c.suite, "info": c.info, "failure": r}
+    return None
 
 
 def cases(prop, ctx):
